@@ -317,6 +317,60 @@ def r10_poll_map_err(text, variant, count=1):
     return sub(text, pat, repl, count=count, name="R10p")
 
 
+ATOMIC_OPS = ("load", "store", "compare_exchange_weak", "compare_exchange", "fetch_add", "fetch_sub", "swap", "fetch_max", "fetch_min")
+
+
+def r7_atomics(text, blocks, recv_pat=r"(?:[A-Za-z_]\w*)(?:\s*\.\s*(?:[A-Za-z_]\w*|\d+))*"):
+    """R7: RECV.op(args.., Ordering::X) -> atomic_with_ghost!(&RECV => op(args..); returning ret; ghost g => { BLOCK }).
+    blocks: list (one per atomic operation, in order of appearance) of ghost block texts."""
+    k = 0
+    pos = 0
+    pat = re.compile(r"(%s)\s*\.\s*(%s)\s*\(" % (recv_pat, "|".join(ATOMIC_OPS)))
+    while True:
+        m = mask(text)
+        mm = pat.search(m, pos)
+        if not mm:
+            break
+        # the receiver regex is greedy over dotted paths; make sure op is the last segment
+        op_open = mm.end() - 1
+        op_close = match_close(m, op_open)
+        args = []
+        depth, cur = 0, []
+        for ch in text[op_open + 1:op_close]:
+            if ch in "([{":
+                depth += 1
+            elif ch in ")]}":
+                depth -= 1
+            if ch == "," and depth == 0:
+                args.append("".join(cur).strip())
+                cur = []
+            else:
+                cur.append(ch)
+        if "".join(cur).strip():
+            args.append("".join(cur).strip())
+        kept = [a for a in args if not re.match(r"^(std::sync::atomic::)?Ordering::\w+$", a)]
+        if len(kept) == len(args):
+            pos = mm.end()   # not an atomic call (no Ordering argument)
+            continue
+        if k >= len(blocks):
+            raise Undecided("R7: more atomic operations than ghost blocks (%d)" % len(blocks))
+        recv = " ".join(mm.group(1).split())
+        op = mm.group(2)
+        ret = "" if op in ("load", "store") else " returning ret;"
+        blk = blocks[k]
+        if isinstance(blk, dict):
+            blk = blk.get(op, blk.get("default"))
+            if blk is None:
+                raise Undecided("R7: no ghost block for atomic operation %s (#%d)" % (op, k))
+        repl = "atomic_with_ghost!(&%s => %s(%s);%s ghost g => { %s\n})" % (recv, op, ", ".join(kept), ret, blk)
+        text = text[:mm.start()] + repl + text[op_close + 1:]
+        pos = mm.start() + len(repl)
+        k += 1
+    if k != len(blocks):
+        raise Undecided("R7: %d atomic operations found, %d ghost blocks configured" % (k, len(blocks)))
+    return text, k
+
+
 def loops(text):
     """offsets (keyword_start, body_open) of loops in order of appearance."""
     m = mask(text)
@@ -331,9 +385,12 @@ def loops(text):
     return res
 
 
-def annotate_loops(text, ann: dict):
-    """ann: ordinal -> text inserted between the loop header and its '{'."""
+def annotate_loops(text, ann: dict, optional=False):
+    """ann: ordinal -> text inserted between the loop header and its '{'. optional: a body with fewer
+    loops than annotations is accepted (a loop-free body has no loop obligations)."""
     ls = loops(text)
+    if optional:
+        ann = {k: v for k, v in ann.items() if not isinstance(k, int) or k < len(ls)}
     for k in ann:
         if k >= len(ls):
             raise Undecided("loop #%d not found (body has %d loops)" % (k, len(ls)))
@@ -425,6 +482,8 @@ def apply_rules(text, rules, log, fn):
             text, k = r10_map_unwrap_or(text, *r[1:])
         elif kind == "R10e":
             text, k = r10_map_err(text, *r[1:])
+        elif kind == "R7":
+            text, k = r7_atomics(text, *r[1:])
         elif kind == "R10p":
             text, k = r10_poll_map_err(text, *r[1:])
         elif kind == "R18":
@@ -439,7 +498,7 @@ def apply_rules(text, rules, log, fn):
             text, k = add_arg(text, r[1], r[2], r[3] if len(r) > 3 else None)
             kind = "R6" if "Tracked" in r[2] else "R5"
         elif kind == "loops":
-            text, k = annotate_loops(text, r[1])
+            text, k = annotate_loops(text, r[1], *(r[2:]))
             kind = "loop-contract"
         elif kind == "inject":
             text, k = inject(text, r[1], r[2], r[3], r[4] if len(r) > 4 else 1)
